@@ -2,10 +2,11 @@
 
 use crate::PropDef;
 
+pub mod c11;
 pub mod c15;
 pub mod c16;
 pub mod c18;
 
 pub fn all() -> Vec<PropDef> {
-    vec![c15::def(), c16::def(), c18::def()]
+    vec![c11::def(), c15::def(), c16::def(), c18::def()]
 }
